@@ -5,7 +5,8 @@ import Sentinel.Model.Isolation
 
     ops:  `load <res:threshold>*`
           `entry <id> <res> <batch>`            => `pass` | `block iso <rule-index> <triggered-value>` | `dup`
-          `exit <id> [err]`, `dexit <id>` (two concurrent Exit calls), `trace <id>` (no-op), `entry … type=<t>` (same as without),
+          `exit <id> [err]`, `dexit <id>` (two concurrent Exit calls), `pexit <id>` (Exit with a panicking handler: as the code has it the entry
+          stays in flight for ever, the handle is finished), `trace <id>` (no-op), `when <id> ok|err` (WhenExit handler returning nil / an error: no-op), `entry … type=<t>` (same as without),
           `entry <id> <res> -` (no batch option = batch 1), `manyres <n>` (enter+exit n fresh rule-less resources: no-op),
           `sload …` / `sloadres …` (= `load` / `loadres` through one reused caller-owned slice, overwritten after the call),
           `poke <res> <idx> <thr>` (in-place edit of a loaded valid rule object, thr ≠ 0), `rules <res>` / `rules` (GetRulesOfResource / GetRules),
@@ -45,6 +46,12 @@ def soak? (res g rounds b : String) : Option Op := do
 def resType (s : String) : Bool :=
   ["type=common", "type=web", "type=rpc", "type=gateway", "type=dbsql", "type=cache", "type=mq"].contains s
 
+/-- handle ids given by the harness stay below 2^40 (ids above are the model's own, see `freshId`) -/
+def id? (s : String) : Option Nat :=
+  match s.toNat? with
+  | some n => if n < 1099511627776 - 64 then some n else none
+  | none => none
+
 def parse : List String → Option Op
   | "load" :: rs => (rs.mapM rule?).map .load
   | "sload" :: rs => (rs.mapM rule?).map .load       -- same call through a reused caller-owned slice that is overwritten afterwards
@@ -59,23 +66,24 @@ def parse : List String → Option Op
       if res = "" ∨ res.startsWith "#" then none else (ths.mapM u32?).map (.loadres false res)
   | ["clearres", res] =>                -- isolation.ClearRulesOfResource(res), also for a resource without rules
       if res = "" ∨ res.startsWith "#" then none else some (.loadres false res [])
-  | ["entry", id, res, b] => do some (.entry (← id.toNat?) res (← batch? b))
+  | ["entry", id, res, b] => do some (.entry (← id? id) res (← batch? b))
   | ["entry", id, res, b, ty] =>     -- the gauge belongs to the resource NAME, whatever the resource type / traffic direction of the entry
-      if resType ty ∨ ty = "in" then do some (.entry (← id.toNat?) res (← batch? b)) else none
+      if resType ty ∨ ty = "in" then do some (.entry (← id? id) res (← batch? b)) else none
   | ["entry", id, res, b, ty, "in"] =>
-      if resType ty then do some (.entry (← id.toNat?) res (← batch? b)) else none
-  | ["exit", id] => do some (.exit (← id.toNat?))
-  | ["exit", id, "err"] => do some (.exit (← id.toNat?))      -- an error on the entry changes nothing in the accounting
-  | ["dexit", id] => do some (.exit (← id.toNat?))            -- Exit called twice at once = one Exit
+      if resType ty then do some (.entry (← id? id) res (← batch? b)) else none
+  | ["exit", id] => do some (.exit (← id? id))
+  | ["exit", id, "err"] => do some (.exit (← id? id))      -- an error on the entry changes nothing in the accounting
+  | ["dexit", id] => do some (.exit (← id? id))            -- Exit called twice at once = one Exit
+  | ["pexit", id] => do some (.ghost (← id? id))           -- Exit with a panicking exit handler: the unit is never given back (as-is)
   | ["conc", res] => some (.conc res)
   | ["sched", id0, res, bs, s] => do
       let bs ← list? u32? bs
       let s ← list? String.toNat? s
-      if bs.length = 0 ∨ bs.length > 64 then none else some (.sched (← id0.toNat?) res bs s)
+      if bs.length = 0 ∨ bs.length > 64 then none else some (.sched (← id? id0) res bs s)
   | ["par", id0, k, res, b] => do
       let k ← k.toNat?
       if k = 0 ∨ k > 64 then none else
-      some (.sched (← id0.toNat?) res (List.replicate k (← u32? b)) (List.range k ++ List.range k))
+      some (.sched (← id? id0) res (List.replicate k (← u32? b)) (List.range k ++ List.range k))
   | ["soak", res, g, rounds, b] => soak? res g rounds b
   | ["soak", res, g, rounds, b, "x2"] => soak? res g rounds b
   | _ => none
@@ -106,6 +114,8 @@ def showOut : Out → Option String
 /-- `trace <id>` (api.TraceError) never touches rules, gauges or handles: a no-op of both machines -/
 def isTrace : List String → Bool
   | ["trace", id] => id.toNat?.isSome
+  | ["when", id, k] =>      -- an exit handler (returning nil or an error) never changes the accounting
+      id.toNat?.isSome && (k = "ok" || k = "err")
   | ["clock", ms] =>        -- the virtual clock moves (possibly backwards): the accounting does not depend on time at all
       match ms.toNat? with
       | some ms => ms ≤ 20000
